@@ -36,6 +36,36 @@ META = {
  'C10': ('normal-form predicates over the whitespace gaps located by lexmatch + fixed-point checks (Hypothesis)', '6 C10',
          'Generated scripts x {strip_whitespace; use_space_around_operators; reindent x sub-options}: gaps between the written words are located in the output; NF1/NF2/NF3 predicates are evaluated on them and on the output lexing; NF1 and NF2 are applied twice.',
          'whitespace inside a multi-word keyword token is not a gap; a line comment owns its line end; known findings F6, F8b, F9b excluded from the main legs by construction and attributed in hazard legs'),
+ 'C11': ('metamorphic: two renderings of one lexeme list (canonical vs. re-spaced/re-cased) must parse to the same shape (Hypothesis)', '6 C11',
+         'Generated lexeme lists (grammar scripts and light procedural scripts) rendered twice with the same tight/spaced positions: statement counts, split pieces modulo whitespace/case, get_type() and tree shapes (class names, leaves by type and value modulo keyword case/inner whitespace) must coincide.',
+         'no comments are inserted (a line comment makes the following line break significant); only non-empty whitespace is replaced by other non-empty whitespace'),
+ 'C12': ('constructed references with known name/qualifier/alias vs. accessor results, two renderings per reference (Hypothesis)', '6 C12',
+         'References are constructed from parts (name x quoting x qualifier x alias x AS x whitespace x context x neighbours); the tree must contain an Identifier spanning exactly the written reference whose five accessors return the written parts, in both renderings.',
+         'dot written without blanks (the property\'s own form); INSERT targets carry no alias'),
+ 'C13': ('generator role marks vs. node spans and accessor outputs (Hypothesis)', '6 C13',
+         'The grammar marks every WHERE clause, comma list, call, CASE, comparison and typed literal it writes; character spans of the parsed nodes computed by an own walk must coincide with the marks and the accessors must reproduce the written items/arguments/parts/operands.',
+         'a Where without follower extends to the end of the statement incl. its semicolon; bare keyword literals are written in forms the grouping engine documents (NULL AS x, parenthesised in arithmetic); known finding F24 attributed by a rule over the written lexemes'),
+ 'C14': ('context-independence oracle for opaque lexemes (Hypothesis) + exhaustive dictionary x case x context enumeration', '6 C14',
+         'Regions: tokenize(L+lexeme+R) must equal tokenize(L)+[(type, lexeme)]+tokenize(R) for bodies over the full character set constrained by construction; keywords: every dictionary word x 3 casings x 49 contexts enumerated completely against a table oracle written from the documentation, plus drawn case masks and non-dictionary words.',
+         'dictionary order and dedicated-rule table written in the oracle; right contexts ( and . excluded for words by design'),
+ 'C15': ('generated nesting constructs x depth x recursion limit executed in plain-Python child processes, outcome classification (Hypothesis)', '6 C15',
+         'Cases drawn by Hypothesis, executed in a child interpreter whose recursion limit is lowered after import: outcome must be ok (round-trip and tree invariants by an iterative walk) or SQLParseError, a later ordinary call must work, the child must survive.',
+         'limits 100/150/300 in quick, 500/1000 added in thorough with depth capped at 1200'),
+ 'C16': ('enumerated and drawn pump strings per lexer rule under a CPU-time budget', '6 C16',
+         'Search for super-polynomial tokenizing time: per rule of the current table, pumps over the rule alphabet (extracted with re._parser) at lengths ~60 and ~2000, plus drawn pumps; CPU time per candidate must stay under 2 s (observed worst ~0.05 s). Cannot prove the universal clause; decides the stated concrete shapes.',
+         'CPU time via ITIMER_VIRTUAL (load-independent); no static ambiguity analysis (outside the technique family)'),
+ 'C17': ('generator ground truth for statement extents over a procedural grammar (Hypothesis)', '6 C17',
+         'Scripts p plain + one CREATE..BEGIN..END body from the procedural grammar (all listed constructs, nesting <=3) + q plain statements: split/parse must return exactly these statements, every lexeme in the piece of its own statement.',
+         'multi-word keywords with single inner blanks (respelling is C11)'),
+ 'C18': ('generator role tag / dictionary data vs. get_type() over prefixed, re-cased statements (Hypothesis)', '6 C18',
+         'Statements of every kind (incl. WITH + each DML, other DML/DDL leaders, UNKNOWN leaders) with drawn comment/whitespace prefixes, casing and multi-word spelling; get_type() of every statement must equal the expected string.',
+         'expected type of single-word leaders from the dictionaries as data; known finding F12a (keyword glued to parenthesis) checked in its own leg and attributed'),
+ 'C19': ('differential across input forms and across API vs. in-process CLI (Hypothesis)', '6 C19',
+         'Same text as str / bytes+encoding / UTF-8 bytes / Latin-1 bytes / stream through parse, parsestream, split, format must give the results of the str form; sqlparse.cli.main(argv) with drawn flags, encodings and channels must output format(text-mode decoding, **options).',
+         'bool-typed CLI flags only with truthy value; identifier_case not combined with legacy code pages (re-casing may leave the code page)'),
+ 'C20': ('memo-table oracle under model-based operation histories, harness-owned thread schedules and free-running stress (Hypothesis)', '6 C20',
+         'Probe results computed in a fresh interpreter must be reproduced after every step of drawn operation histories (raising calls, abandoned generators, reconfigure/re-initialise), by every thread under drawn line-level schedules of the first use of the default lexer, and under 16 free-running threads.',
+         'schedules are line-granular inside lexer.py only; no liveness claim; reconfigured mode checks totality only'),
  'C09': ('differential vs. textbook hierarchical stack matcher over generated token arrangements (Hypothesis)', '6 C09',
          'Balanced forests over the bracket/block vocabulary perturbed by edits, plus all other sources: the set of (class, first leaf, last leaf) of the six node classes must equal the reference matcher prediction, and each node must start/end with its delimiters at child level (allowing a delimiter shared with a nested node of another of the six kinds).',
          'multi-word closers written with one blank (respelling is C11)'),
